@@ -5,7 +5,8 @@ C(a,b,c,o) == [v |-> <<a,b,c>>, o |-> o]
 CellsQ == { C(<<8,0,0>>, <<0,4,0>>, <<0,0,16>>, <<0,0,0>>),         \* axis-aligned, power-of-two edges: faces decided
             C(<<8,0,0>>, <<0,12,0>>, <<0,0,16>>, <<0,0,0>>),        \* orthorhombic
             C(<<12,0,0>>, <<4,8,0>>, <<-4,8,16>>, <<4,-8,12>>),     \* triclinic LAMMPS-oriented, origin # 0
-            C(<<0,8,0>>, <<-8,4,4>>, <<4,0,12>>, <<-4,4,0>>) }      \* right-handed, not LAMMPS-oriented
+            C(<<0,8,0>>, <<-8,4,4>>, <<4,0,12>>, <<-4,4,0>>),       \* right-handed, not LAMMPS-oriented
+            C(<<4,8,4>>, <<-8,4,4>>, <<4,-4,12>>, <<0,4,-4>>) }     \* rigidly rotated-looking: all nine components non-zero
 Origins == { <<0,0,0>>, <<4,-8,12>> }
 PtsQ == { <<0,0,0>>, <<4,2,1>>, <<-1,3,5>>, <<1,2,3>> }
 PtsT == { <<0,0,0>>, <<4,2,1>>, <<-1,3,5>>, <<2,4,0>>, <<1,2,3>> }
